@@ -67,7 +67,8 @@ def tok_class_cell(it, ctx, tok, classes):
     return c
 
 
-def make_equal_model(classes, record=True):
+def make_equal_model(classes, record=True, cell_classes=None):
+    """cell_classes: the spellings a token may have in this exploration (default: all of `classes`)"""
     def m_equal(it, ctx, n, args):
         t = as_obj(it, args[0], n)
         s = args[1]
@@ -75,7 +76,7 @@ def make_equal_model(classes, record=True):
             raise AnalysisBroken('equal() on a value the token model cannot follow at line %d' % n.line)
         if s not in classes:
             raise AnalysisBroken('equal() against %r which is not in the collected literal set' % s)
-        cell = tok_class_cell(it, ctx, t, classes)
+        cell = tok_class_cell(it, ctx, t, cell_classes or classes)
         r = View(cell, lambda c, s=s: 1 if c == s else 0, 'is%r' % s)
         if record:
             ctx.emit('call', 'equal', [t, s], n.line, r)
@@ -83,7 +84,9 @@ def make_equal_model(classes, record=True):
     return m_equal
 
 
-def make_find_arg_model(classes):
+def make_find_arg_model(classes, cell_classes=None):
+    classes = cell_classes or classes
+
     def m_find_arg(it, ctx, n, args):
         t = as_obj(it, args[1], n)
         if not isinstance(t, Obj):
